@@ -1,11 +1,13 @@
 import Driver.Proto
 import Driver.Hb
+import Driver.Query
 /-! Model driver: one request per line on stdin, one answer per line on stdout. -/
 open Drv
 
 def dispatch (line : String) : String :=
   match (line.splitOn " ").filter (· ≠ "") with
   | "hb" :: r => Hb.handle r
+  | "q" :: r => Query.handle r
   | [] => "bad empty"
   | a :: _ => s!"bad area {a}"
 
